@@ -316,6 +316,7 @@ impl<T: El> SetWorld<T> {
                 let before = self.ids();
                 let mut log: Vec<u32> = Vec::with_capacity(before.len() + 1);
                 let mut yielded: Vec<u32> = Vec::with_capacity(before.len() + 4);
+                let mut counted: Option<usize> = None;
                 window(|| {
                     let mut it = self.s.drain_filter(|x| {
                         tick(Cb::Closure);
@@ -323,7 +324,7 @@ impl<T: El> SetWorld<T> {
                         harness(|| log.push(a));
                         take.contains(&a)
                     });
-                    let limit = if mode == MODE_CONSUME { usize::MAX } else { prefix as usize };
+                    let limit = iter_limit(mode, prefix);
                     let mut n = 0;
                     while n < limit {
                         match it.next() {
@@ -337,11 +338,12 @@ impl<T: El> SetWorld<T> {
                             None => break,
                         }
                     }
-                    if mode == MODE_FORGET_AT {
-                        std::mem::forget(it);
-                    } else {
-                        drop(it);
-                    }
+                    counted = finish_iter(it, mode, prefix, &mut |x| {
+                        harness(|| {
+                            yielded.push(x.id());
+                            drop(x);
+                        })
+                    });
                 });
                 log.sort();
                 for w in log.windows(2) {
@@ -369,9 +371,10 @@ impl<T: El> SetWorld<T> {
                     }
                 } else {
                     let want: Vec<u32> = before.iter().copied().filter(|e| take.contains(e)).collect();
-                    if mode == MODE_CONSUME && yielded != want {
+                    if iter_complete(mode) && yielded != want {
                         vbail!("mismatch", "drain_filter yielded {:?}, matching elements were {:?}", yielded, want);
                     }
+                    iter_post("drain_filter", mode, prefix, want.len(), yielded.len(), counted)?;
                     self.r.retain(|a, _| !take.contains(a));
                 }
             }
@@ -379,8 +382,9 @@ impl<T: El> SetWorld<T> {
                 let (_, mode, prefix) = iter_arg_split(op.arg);
                 let before = self.ids();
                 let n0 = before.len();
-                let limit = if mode == MODE_CONSUME { usize::MAX } else { prefix as usize };
+                let limit = iter_limit(mode, prefix);
                 let mut yielded: Vec<u32> = Vec::with_capacity(n0 + 4);
+                let mut counted: Option<usize> = None;
                 let mut bad: Option<String> = None;
                 macro_rules! consume {
                     ($it:expr) => {{
@@ -409,11 +413,12 @@ impl<T: El> SetWorld<T> {
                                 }
                             }
                         }
-                        if mode == MODE_FORGET_AT {
-                            std::mem::forget(it);
-                        } else {
-                            drop(it);
-                        }
+                        counted = finish_iter(it, mode, prefix, &mut |x| {
+                            harness(|| {
+                                yielded.push(x.id());
+                                drop(x);
+                            })
+                        });
                     }};
                 }
                 if op.k == OpK::Drain {
@@ -438,9 +443,10 @@ impl<T: El> SetWorld<T> {
                         vbail!("mismatch", "{} yielded {}; not an element", op.k.name(), e);
                     }
                 }
-                if mode == MODE_CONSUME && yielded != before {
+                if iter_complete(mode) && yielded != before {
                     vbail!("mismatch", "{} yielded {:?}, elements were {:?}", op.k.name(), yielded, before);
                 }
+                iter_post(op.k.name(), mode, prefix, n0, yielded.len(), counted)?;
                 if mode == MODE_FORGET_AT {
                     self.leaky = true;
                 }
@@ -547,6 +553,9 @@ impl<T: El> SetWorld<T> {
                 if got != want {
                     vbail!("mismatch", "&set into_iter yields {:?}, elements are {:?}", got, want);
                 }
+                let want2: Vec<(u32, u32)> = want.iter().map(|&a| (a, 0)).collect();
+                crate::provided!(self.s.iter(), |x: &T| (x.id(), 0), &want2, "set.iter");
+                crate::provided!((&self.s).into_iter(), |x: &T| (x.id(), 0), &want2, "&set.into_iter");
                 let ps: Vec<usize> = if n <= 40 { (0..=n).collect() } else { vec![0, n / 2, n] };
                 for p in ps {
                     let mut it = self.s.iter();
